@@ -637,10 +637,26 @@ mod detail {
         ops: &[FlatOp<T>],
         nodes: &[FlatNode<T>],
     ) -> ExprIdxVec {
+        // A commutative operator between two literals may only be preferred if this is
+        // invisible for associative operators, i.e., if the operator on its left has a lower
+        // priority or is the same operator, and if no unary operator is attached to it.
+        let left_is_compatible = |bin_op_idx: usize| {
+            let op = &ops[bin_op_idx].bin_op;
+            match ops[..bin_op_idx]
+                .iter()
+                .rev()
+                .find(|left| left.bin_op.op.prio <= op.op.prio)
+            {
+                Some(left) => left.bin_op.op.prio < op.op.prio || left.bin_op.idx == op.idx,
+                None => true,
+            }
+        };
         let prio_increase =
             |bin_op_idx: usize| match (&nodes[bin_op_idx].kind, &nodes[bin_op_idx + 1].kind) {
                 (FlatNodeKind::Num(_), FlatNodeKind::Num(_))
-                    if ops[bin_op_idx].bin_op.op.is_commutative =>
+                    if ops[bin_op_idx].bin_op.op.is_commutative
+                        && ops[bin_op_idx].unary_op.len() == 0
+                        && left_is_compatible(bin_op_idx) =>
                 {
                     let prio_inc = 5;
                     &ops[bin_op_idx].bin_op.op.prio * 10 + prio_inc
